@@ -85,11 +85,21 @@ class Automaton(object):
         self.shutdown_requested = False
         self.delivered = []    # (t, src, data) handed to the entry point
         self.n_connect = 0
+        self.pending = []      # violations found on the server thread
         self.kick_on_disconnect = None   # addr to kick from inside the next disconnect event
         self.watches = {}      # id(client obj) -> ConnWatch (observation only), attached at the connect event
         self.handled = {}      # id(client obj) -> set of message seqnums handed to handle_message
 
     def on_event(self, e):
+        """runs on the SERVER thread, inside handler callbacks whose exceptions the library logs and swallows: a violation
+        found here is parked and re-raised by the harness thread after the step"""
+        from vp.runner import Violation
+        try:
+            self._on_event(e)
+        except Violation as v:
+            self.pending.append(v)
+
+    def _on_event(self, e):
         ctx, w = self.ctx, self.w
         self.tids.add(e["tid"])
         ev = e["ev"]
@@ -141,7 +151,21 @@ class Automaton(object):
                 if victim is not None and victim is not c:
                     self.sdisc.add(id(victim))
                     victim.disconnect()        # a server-initiated disconnect issued from inside a handler event
-            silent_for = e["t"] - c.last_recv_time
+            # silence is measured on the harness's own record of the wire: the last first-time datagram from that address
+            # that opens under the session key (stale copies and garbage do not count as signs of life)
+            t_last = None
+            seen_bytes = set()
+            for t, src, data in self.delivered:
+                if src != c.addr:
+                    continue
+                fresh = data not in seen_bytes
+                seen_bytes.add(data)
+                if not fresh:
+                    continue
+                p = W.parse_datagram(data, c.session_key_bytes)
+                if p is not None and p.form == "gcm":
+                    t_last = t
+            silent_for = e["t"] - (t_last if t_last is not None else -1e9)
             justified = (k in self.sdisc or c.addr in self.cdisc or self.shutdown_requested
                          or silent_for >= w.ctxt.connection_timeout - 1e-9)
             if not justified:
@@ -149,6 +173,8 @@ class Automaton(object):
                     e["addr"], e["t"], silent_for, w.ctxt.connection_timeout))
 
     def check_tokens(self):
+        if self.pending:
+            raise self.pending[0]
         toks = {}
         for addr, c in self.w.ctxt.connections.items():
             if c.token in toks:
@@ -365,6 +391,8 @@ def body(ctx, c):
             step(1)
         if w.state != "dead":
             ctx.violation("shutdown-ignored", "the server loop still runs 5 ticks after shutdown()")
+        if auto.pending:
+            raise auto.pending[0]
         if w.thread_exc is not None:
             ctx.violation("server-loop-died", "an exception escaped the server loop: %r" % (w.thread_exc,))
         # every application message a connected client's connection accepted was handed to the handler
